@@ -5,7 +5,7 @@
    Python floats are exact rationals in the Model (value statements are Qeq). *)
 From Coq Require Import List ZArith Bool QArith.
 Import ListNotations.
-From Verif Require Import Val Units Signatures Numeric Args NumericSpec NumericProofs ArgsProofs.
+From Verif Require Import Val Units Signatures Numeric Args NumericSpec NumericProofs ArgsProofs SigProofs GlueProofs TypedProofs.
 Local Open Scope Z_scope.
 
 (* ---------------------------------------------------------------- regenerated tables *)
@@ -158,6 +158,75 @@ Theorem C05_parse_binds_partial : forall us s b s',
   call us s b s' -> forall lvl acc, parse_args (map compile_u us) s lvl acc = POk (rev acc ++ b) s' lvl.
 Proof. exact parse_binds. Qed.
 
+(* ---------------------------------------------------------------- M4: the signature compiler inverts the printer *)
+
+(* for EVERY signature AST of the documented grammar -- modifiers * + -, =, mandatory arguments, optional groupings [ ] ( ) < >
+   and { }, names (a letter followed by word characters), any type tag, optional list/dict delimiter (any non-word, non-blank
+   character but `:`) and optional subtype -- printed with any number of leading blanks, at least one blank after every item and
+   any number of blanks inside the groupings: compiling the printed string gives exactly the declared arguments
+   (name, spec, type, delimiter, subtype, expanded flag), in order.  Unbounded induction over the item list. *)
+Theorem C05_compile_print_sig : forall lead (l : list (sitem * nat)),
+  Forall wf_item (map fst l) ->
+  compile_sig (print_sig lead l) = SigOk (map (fun p => arg_of_item (fst p)) l).
+Proof. exact compile_print_sig. Qed.
+
+(* ---------------------------------------------------------------- glue *)
+
+(* width [blanks plus stretch] [blanks minus shrink]: the width any printed dimension over the 11 units, stretch and shrink
+   any printed dimension over the 11 units + fil/fill/filll (keywords in any letter case, optional `true`, blanks, sign runs).
+   readGlue returns exactly the three components and consumes exactly the literal (plus one optional blank after the shrink,
+   or every blank while looking for an absent plus/minus).  Hypotheses name what is excluded: after `fil`/`fill` the next token
+   must not spell one more `l`; an absent keyword must really be absent (its search must miss). *)
+Theorem C05_read_glue_exact : forall p0 st sh rest lvl0,
+  pdim_ok dimen_units p0 -> pfil_ok kw_plus st -> pfil_ok kw_minus sh ->
+  match st with Some x => fil_next_ok (f_dim x) (print_fil sh ++ rest) | None => True end ->
+  match sh with Some x => fil_next_ok (f_dim x) rest | None => True end ->
+  (st = None -> sh = None -> misses kw_plus (read_optional_spaces rest)) ->
+  (sh = None -> misses kw_minus (read_optional_spaces rest)) ->
+  exists v0 ov1 ov2,
+    read_glue dimen_units (print_dim p0 ++ print_fil st ++ print_fil sh ++ rest) lvl0
+    = Ok (v0, ov1, ov2) (match sh with Some _ => read_one_optional_space rest | None => read_optional_spaces rest end) lvl0 /\
+    (exists f0, dimen_of_unit (p_unit p0) = Some f0 /\
+                (v0 == inject_Z (sign_value (p_sr p0)) * dec_value (p_dec p0) * f0)%Q) /\
+    opt_denotes st ov1 /\ opt_denotes sh ov2.
+Proof. exact read_glue_exact. Qed.
+
+(* the components in numbers: an ordinary unit gives sign * decimal * factor, a fil order the amount with its offset *)
+Theorem C05_dim_denotes_plain : forall p v, dim_denotes p v -> In (p_unit p) dimen_units ->
+  exists f, dimen_of_unit (p_unit p) = Some f /\ (v == inject_Z (sign_value (p_sr p)) * dec_value (p_dec p) * f)%Q.
+Proof. exact dim_denotes_plain. Qed.
+
+Theorem C05_dim_denotes_fil : forall p v off, dim_denotes p v ->
+  (p_unit p = s_fil /\ off = two_e9) \/ (p_unit p = s_fill /\ off = four_e9) \/ (p_unit p = s_filll /\ off = six_e9) ->
+  exists a, (a == inject_Z (sign_value (p_sr p)) * dec_value (p_dec p))%Q /\ (v == if qlt_b a 0 then a - off else a + off)%Q.
+Proof. exact dim_denotes_fil. Qed.
+
+(* readStretch and readShrink use the list the glue theorem is about *)
+Theorem C05_glue_unit_lists : dimen_units ++ fil_units = UF /\ dimen_units ++ fil_units_minus = UF.
+Proof. exact UF_is_stretch_shrink. Qed.
+
+(* ---------------------------------------------------------------- M5 for typed arguments *)
+
+(* each form of [conforms] (Proofs/TypedProofs.v; one constructor per argument type, the side conditions name what is excluded)
+   is read by readArgumentAndSource to a value satisfying the predicate the form denotes, at every enable level *)
+Theorem C05_conforms_reads : forall a s P s', conforms a s P s' ->
+  forall lvl, exists v, read_argument a s lvl = AOk v s' lvl /\ P v.
+Proof. exact conforms_reads. Qed.
+
+(* Macro.parse over any list of declared arguments -- untyped, optional (present / absent), modifiers, str/chr/char, cs, Tok,
+   int/number/count, float/double, dimen/length, Number, Dimen, Glue, list, dict -- and any conforming call: every declared name
+   is bound, in order, to a value that is the denotation of the tokens written in its position (integers exactly, decimals and
+   dimensions as exact rationals, strings with blanks stripped, list items and dictionary pairs in order), exactly the call is
+   consumed, the enable level is restored.
+   Excluded (see [conforms]): str/list/dict contents with groups or macros (known finding str-of-group and expansion not
+   modelled); int/float/dimen arguments that are not exactly one literal; a brace or control sequence directly after a Number
+   argument (known finding); `l` after fil/fill; subtypes of list/dict other than none/str; dict values that are empty or
+   contain `=`; label/id/ref/idref/url (casts with side effects on the document); XTok, Args, any. *)
+Theorem C05_parse_binds_typed_partial : forall args s b s',
+  tcall args s b s' ->
+  forall lvl acc, exists vals, parse_args args s lvl acc = POk (rev acc ++ vals) s' lvl /\ Forall2 bound vals b.
+Proof. exact parse_binds_typed. Qed.
+
 (* ---------------------------------------------------------------- non-vacuity *)
 
 Example C05_nonvacuous :
@@ -184,4 +253,79 @@ Proof.
   apply (call_opt_present [111] 91 93 0 [Ch 11 111]); [discriminate|reflexivity|reflexivity|].
   apply (call_mand [116] 0 123 125 [Ch 11 120; Ch 1 123; Ch 11 121; Ch 2 125]); [reflexivity|reflexivity|].
   apply call_nil.
+Qed.
+
+(* non-vacuity of M4, glue and typed M5:
+   " * [ opt ]  key:list(;):int" ;  -1.5pt plus 2fil ;  \foo{-12}{ ab }{x,y z}{k=v} with args n:int s:str l:list d:dict *)
+Ltac tokp :=
+  match goal with
+  | |- digit_tok _ (Ch ?cat ?c) => exists cat, c; repeat split; auto
+  | |- kw_tok (Ch ?cat ?c) => exists cat, c; repeat split; auto
+  | |- point_tok (Ch ?cat ?c) => exists cat, c; repeat split; auto
+  end.
+
+Example C05_nonvacuous_typed :
+  Forall wf_item (map fst [(SMod 42, 0%nat); (SArg [111;112;116] (Some 91) None 1 1, 1%nat);
+                           (SArg [107;101;121] None (Some (mkTy n_list (Some 59) (Some n_int))) 0 0, 0%nat)]) /\
+  (let p0 := mkPD (mkSR 0 [(true, 0%nat)]) (mkDec [Ch 12 49] (Some (Ch 12 46)) [Ch 12 53]) 0 [] [Ch 11 112; Ch 11 116] s_pt in
+   let p1 := mkPD (mkSR 1 []) (mkDec [Ch 12 50] None []) 0 [] [Ch 11 102; Ch 11 105; Ch 11 108] s_fil in
+   pdim_ok dimen_units p0 /\ pfil_ok kw_plus (Some (mkPF 1 [Ch 11 112; Ch 11 108; Ch 11 117; Ch 11 115] p1)) /\
+   fil_next_ok p1 [Ch 11 120] /\ misses kw_minus (read_optional_spaces [Ch 11 120])) /\
+  tcall [mkArg [110] None (Some n_int) None None true; mkArg [115] None (Some n_str) None None true;
+         mkArg [108] None (Some n_list) None None true; mkArg [100] None (Some n_dict) None None true]
+        ([Ch 1 123; Ch 12 45; Ch 12 49; Ch 12 50; Ch 2 125] ++ [Ch 1 123; Ch 10 32; Ch 11 97; Ch 11 98; Ch 10 32; Ch 2 125] ++
+         [Ch 1 123; Ch 11 120; Ch 12 44; Ch 11 121; Ch 10 32; Ch 11 122; Ch 2 125] ++
+         [Ch 1 123; Ch 11 107; Ch 12 61; Ch 11 118; Ch 2 125] ++ [Ch 11 119])
+        [([110], eq (VInt (-12))); ([115], eq (VStr [97; 98])); ([108], eq (VList [VStr [120]; VStr [121; 32; 122]]));
+         ([100], eq (VDict [(VStr [107], VStr [118])]))]
+        [Ch 11 119].
+Proof.
+  split; [|split].
+  {
+  cbn [map fst]. constructor; [left; reflexivity|]. constructor.
+  - split; [split; [discriminate|reflexivity]|]. split; [eexists; eexists; split; reflexivity|]. split; [left; reflexivity|exact I].
+  - constructor; [|constructor].
+    split; [split; [discriminate|reflexivity]|]. split; [eexists; eexists; split; reflexivity|]. split; [exact I|].
+    split; [split; [discriminate|reflexivity]|]. split; [repeat split; try reflexivity; discriminate|split; [discriminate|reflexivity]].
+  }
+  {
+  cbn zeta. split; [|split; [|split]].
+  - unfold pdim_ok, declit_ok, true_part, spells. cbn [p_dec p_true p_unit p_utoks d_ip d_fp d_point].
+    split; [split; [|split]|split; [|split]].
+    + repeat constructor; tokp.
+    + repeat constructor; tokp.
+    + tokp.
+    + left; reflexivity.
+    + cbn; auto.
+    + split; [repeat constructor; tokp|reflexivity].
+  - unfold pfil_ok, pdim_ok, declit_ok, true_part, spells. cbn [f_kw f_dim p_dec p_true p_unit p_utoks d_ip d_fp d_point].
+    split; [split; [repeat constructor; tokp|reflexivity]|].
+    split; [split; [|split]|split; [|split]].
+    + repeat constructor; tokp.
+    + constructor.
+    + split; [discriminate|reflexivity].
+    + left; reflexivity.
+    + cbn; auto 20.
+    + split; [repeat constructor; tokp|reflexivity].
+  - intros _. cbn. split; reflexivity.
+  - reflexivity.
+  }
+  assert (Hil : il_ok (ILDec [Ch 12 49; Ch 12 50])) by (split; [discriminate|repeat constructor; tokp]).
+  apply (tcall_cons _ _ _ _ _ _ _
+           (c_int (mkArg [110] None (Some n_int) None None true) 0 _ (mkSR 0 [(true, 0%nat)]) (ILDec [Ch 12 49; Ch 12 50]) _
+                  eq_refl (del_brace 123 125 (print_signs (mkSR 0 [(true, 0%nat)]) ++ il_toks (ILDec [Ch 12 49; Ch 12 50])) eq_refl) Hil)).
+  apply (tcall_cons _ _ _ _ _ _ _
+           (c_str (mkArg [115] None (Some n_str) None None true) 0 _ [Ch 10 32; Ch 11 97; Ch 11 98; Ch 10 32] _
+                  eq_refl (del_brace 123 125 [Ch 10 32; Ch 11 97; Ch 11 98; Ch 10 32] eq_refl) eq_refl)).
+  assert (Hit : Forall (item_ok 44) [[Ch 11 120]; [Ch 11 121; Ch 10 32; Ch 11 122]]).
+  { repeat constructor. }
+  apply (tcall_cons _ _ _ _ _ _ _
+           (c_list (mkArg [108] None (Some n_list) None None true) 0 _ [[Ch 11 120]; [Ch 11 121; Ch 10 32; Ch 11 122]] _
+                   eq_refl (or_introl eq_refl) ltac:(discriminate) Hit (del_brace 123 125 (join 44 [[Ch 11 120]; [Ch 11 121; Ch 10 32; Ch 11 122]]) eq_refl))).
+  assert (He : Forall (entry_ok 44) [([Ch 11 107], [Ch 11 118])]).
+  { repeat constructor; discriminate. }
+  apply (tcall_cons _ _ _ _ _ _ _
+           (c_dict (mkArg [100] None (Some n_dict) None None true) 0 _ [([Ch 11 107], [Ch 11 118])] _
+                   eq_refl (or_introl eq_refl) ltac:(discriminate) ltac:(discriminate) He (del_brace 123 125 (join_entries 44 [([Ch 11 107], [Ch 11 118])]) eq_refl))).
+  apply tcall_nil.
 Qed.
